@@ -53,8 +53,15 @@ def confirm(cand, name, ref):
         binp = "/tmp/seeded_bin_%s" % name
         # demo on the unchanged tree
         rc, out = sh(["go", "build", "-o", binp + "_orig", "."], cwd=wt)
-        rc0, out0 = sh(["bash", "run.sh", binp + "_orig", wt], cwd=demo, timeout=900)
-        rec["ran"].append("demo/run.sh on unchanged tree -> exit %d" % rc0)
+        # demos take either the gopherjs binary or the worktree as $1: try the binary first, then the worktree
+        mode = "bin"
+        rc0, out0 = sh(["bash", "run.sh", binp + "_orig", wt], cwd=demo, timeout=1800)
+        if rc0 != 0:
+            rc0b, out0b = sh(["bash", "run.sh", wt, binp + "_orig"], cwd=demo, timeout=1800)
+            if rc0b == 0:
+                mode, rc0, out0 = "wt", rc0b, out0b
+        rec["demo_arg_mode"] = mode
+        rec["ran"].append("demo/run.sh (%s as $1) on unchanged tree -> exit %d" % (mode, rc0))
         rec["demo_passes_without"] = rc0 == 0
         rc, out = sh(["git", "-C", wt, "apply", patch])
         if rc != 0:
@@ -67,7 +74,7 @@ def confirm(cand, name, ref):
             if rc != 0:
                 print(out[-800:]); ok = False
             else:
-                rc1, out1 = sh(["bash", "run.sh", binp, wt], cwd=demo, timeout=900)
+                rc1, out1 = sh(["bash", "run.sh"] + ([binp, wt] if mode == "bin" else [wt, binp]), cwd=demo, timeout=1800)
                 rec["ran"].append("demo/run.sh with the change -> exit %d" % rc1)
                 rec["demo_fails_with"] = rc1 != 0
                 rc2, out2 = sh([sys.executable, os.path.join(VERIF, "harness", "py", "baseline_cmp.py"), wt], timeout=7200,
